@@ -31,7 +31,9 @@ def run(ck, ctx):
     conv = [n for n in ast.walk(pd.node) if isinstance(n, ast.Assign) and isinstance(n.value, ast.Call)
             and isinstance(n.value.func, ast.Name) and n.value.func.id == "int"]
     if not conv:
-        raise AnalysisError("anchor vanished: int(default) conversion in p_default")
+        # the conversion was moved (a helper, another expression form): nothing structural to say - the values themselves are decided
+        # below, by the core-column fixed point on numbers incl. 0, leading zeros and long numbers (O-value / O-uniform)
+        ck.note("T-NUMERIC: no `x = int(x)` statement in p_default; the numeric defaults are decided by the core-column fixed point alone")
     for n in conv:
         atoms = guard_atoms(pd.node, n)
         tgt = ast.unparse(n.targets[0])
